@@ -15,6 +15,20 @@ CHECKS = {
         "each recorded trace is validated by TLC: per-call contract rules (accounting, progress, END/FINISH absorbing), compression output must decode (TLA+ decoder) to the concatenated input, decompression must deliver exactly the spec's decode of the same stream with the same final state/position/checksum in one-shot and streaming form.",
    note="Trusted: TLC's evaluation of the specs; harness; schedules sampled from VERIF_SEED plus systematic families.",
    technique="trace validation of recorded streaming call histories against the TLA+ stream contract and decoder"),
+ "C02": dict(cat="exploration", ref="DESIGN.md §3 C02",
+   text="Grammar-directed foreign streams (stored/fixed/dynamic in any order, empty blocks, complete prefix codes up to 15 bits, single-code distance alphabets, all length/distance symbol edges, overlapping copies, distance 32768, sizes around the multi-symbol thresholds) and zlib-made streams, "
+        "wrapped for all 7 inflate modes, are decoded by the TLA+ reference decoder (spec/Deflate.tla, Wrappers.tla) and replayed one-shot and streaming under the three decode kernels (base/_01/_04 via the real resolver). TLC validates every recorded call: bytes, FINISH, reported input position = true end, state checksum.",
+   note="Trusted: the TLA+ decoder (cross-checked against zlib on the same generator); generator and zlib only produce bytes.",
+   technique="TLA+ reference decoder (TLC) judging recorded inflate traces of spec-classified generated streams"),
+ "C06": dict(cat="exploration", ref="DESIGN.md §3 C06",
+   text="Every truncation and every single-bit flip (stride-sampled for wrapped forms in quick) of short parent streams, byte substitutions, grammar-level single faults with their documented error class, wrapper faults and random byte strings are classified by the TLA+ decoder (Valid / Invalid(class) / NeedMore / lenient) "
+        "and replayed one-shot and streaming under the three decode kernels with guard pages; TLC requires: success only if the spec accepts, output = spec output, documented codes, <= avail_out written, progress, documented class for injected faults.",
+   note="Trusted: the TLA+ decoder's classification; 'lenient' inputs (incomplete code sets, reserved gzip flag bits) may go either way; counters after a negative return are not constrained.",
+   technique="spec-classified mutants (exhaustive single-bit/truncation over chosen parents) replayed; traces validated by TLC"),
+ "C11": dict(cat="exploration", ref="DESIGN.md §3 C11",
+   text="Verifier: valid gzip/zlib/NO_HDR_VER streams x every single-bit flip of the trailer and (sampled in quick) of header/body, every truncation, chunkings placing the trailer boundary at every call boundary; TLC decides with Wrappers!Unwrap which mutants remain valid and requires success/FINISH only for those and state->crc = spec checksum. "
+        "Producer: streams compressed under many chunkings in the four trailer-carrying modes must carry the spec-computed CRC-32+ISIZE / Adler-32 (TraceDeflate).",
+   note="Trusted: Checksums.tla (anchored to published check values), Wrappers.tla.", technique="spec-classified corruption sweeps replayed; traces validated by TLC against the TLA+ container/checksum spec"),
  "C03": dict(cat="exploration", ref="DESIGN.md §3 C03",
    text="Expected parity for each (coefficients, sources) vector is computed by TLC from spec/EC.tla (GF(2^8) matrix product over the field of GF256.tla) and replayed into the real "
         "library: every encode wrapper (base, sse, avx, avx2, avx512, avx512_gfni, avx2_gfni, dispatched) and every gf_{1..6}vect_dot_prod_<isa> kernel, for every len 0..N, "
